@@ -152,6 +152,10 @@ func (c *channel) enqueue(req request, responseChan chan<- response, streaming b
 		c.routeResponse(req.msg.Metadata.MessageID, response{nid: c.node.ID(), err: req.ctx.Err()})
 		return
 	case c.sendQ <- req:
+		if c.parentCtx.Err() != nil {
+			// the node was closed; the sender may already have stopped reading the queue
+			c.routeResponse(req.msg.Metadata.MessageID, response{nid: c.node.ID(), err: fmt.Errorf("channel closed")})
+		}
 	}
 }
 
@@ -228,7 +232,15 @@ func (c *channel) sender() {
 	for {
 		select {
 		case <-c.parentCtx.Done():
-			return
+			// the node was closed: respond to the requests left in the queue
+			for {
+				select {
+				case req = <-c.sendQ:
+					c.routeResponse(req.msg.Metadata.MessageID, response{nid: c.node.ID(), err: fmt.Errorf("channel closed")})
+				default:
+					return
+				}
+			}
 		case req = <-c.sendQ:
 		}
 		// try to connect to the node if previous attempts
@@ -275,6 +287,8 @@ func (c *channel) receiver() {
 
 		select {
 		case <-c.parentCtx.Done():
+			// the node was closed: respond to the requests that are still waiting for a reply
+			c.cancelPendingMsgs()
 			return
 		default:
 		}
